@@ -99,7 +99,7 @@ type DataPlan struct {
 	ParkAfter  Dur
 	V          Verdict
 	Statuses   []StatusCall
-	PanicWhen  int // for V.Kind==vPanic: 0 on entry, 1 after reading
+	PanicWhen  int // for V.Kind==vPanic: 0 on entry, 3 after the first statuses but before reading, 1 after reading, 2 at the end
 	// IgnoreReadErr: accept the message even though the reader failed. By
 	// default the backend behaves like io.ReadAll-based backends do and
 	// returns the reader's (non-EOF) error.
@@ -499,6 +499,9 @@ func (s *simSession) runData(ev *BEvent, r io.Reader, p *DataPlan, sc smtp.Statu
 		p.V.err()
 	}
 	setStatuses(0)
+	if p.V.Kind == vPanic && p.PanicWhen == 3 {
+		p.V.err()
+	}
 	ev.consume(r, p)
 	if p.V.Kind == vPanic && p.PanicWhen == 1 {
 		p.V.err()
